@@ -855,7 +855,9 @@ class ProtocolTransportMixin:
         self.transport.write(data.replace(b"\n", b"\r\n"))
 
     def writeSequence(self, seq):
-        self.transport.writeSequence(seq)
+        # Go through write() so that the same translation (LF to CR LF and,
+        # in TelnetTransport, IAC escaping) applies as for write().
+        self.write(b"".join(seq))
 
     def loseConnection(self):
         self.transport.loseConnection()
